@@ -351,3 +351,224 @@ Example C02_entry_witness :
   en_find_string_match_starting_at Z (enx_scan enx_p_abc) false enx_flt_abc b 2 = Err ERR_START_NOT_BOUNDARY /\
   en_find_string_match_starting_at Z (enx_scan enx_p_abc) false enx_flt_abc b 4 = Ok None.
 Proof. vm_compute. repeat split; reflexivity. Qed.
+
+(* ================================================================================================
+   Composition: the abstract engine of the headline instantiated by the REFERENCE SEMANTICS
+   (Model/Spec.v: find = leftmost priority-ordered search; C01, C03 are about it), left-to-right.
+   Proofs: Proofs/ComposeEntry.v.
+
+     ce_env e0 r ts        the oracles of e0 on the text r with \G bound to ts
+     ce_search e0 fuel_of root r s
+                           FindRunesMatchStartingAt(r, s): Spec.find on a fresh scan (prevlen = -1) with
+                           \G = s and fuel fuel_of r; "out of fuel" is no answer
+     ce_index m            Match.RuneIndex: the start of the capture of group 0
+     ce_search_quick ... keep root   the same search on [erase keep root], reporting only success
+     ce_no_start t         the tree contains no \G (NAnchor AStart), anywhere
+     ce_terminates e0 fuel_of root   RESIDUAL HYPOTHESIS: with fuel fuel_of r every single attempt
+                           inside r returns (Spec.attempt is fuel-indexed; its termination is the accepted
+                           residual hypothesis of the project).  Needed for start independence only:
+                           without it a scan from s may die of fuel exhaustion at a position before s'
+                           (answer: none) while the scan from s' succeeds.
+
+   Right-to-left is NOT covered: for a right-to-left engine a match found from s lies at or before s, so
+   the headline's hypothesis enp_in_range (s <= index) is the wrong shape for it (the headline itself only
+   uses it on the filter path, which right-to-left programs never take); the theorems below are stated
+   for cd_rtl c = false and trees with shape_ok false.
+   ================================================================================================ *)
+From Verif Require Import Model.Analysis Proofs.SpecBoundsProofs Proofs.ComposeEntry.
+
+(* A tree without \G is evaluated without reading the scan start: two environments that agree on
+   everything but [tstart] give the same result lists for every node, fuel and state, hence the same
+   attempts and the same scans, in both directions.  No hypothesis. *)
+Theorem C02_attempt_does_not_read_start :
+  forall (e e' : env) (t : node),
+    txt e' = txt e /\ ecma e' = ecma e /\ endz_strict e' = endz_strict e /\ set_in e' = set_in e /\
+    lower e' = lower e /\ is_word e' = is_word e /\ is_eword e' = is_eword e ->
+    ce_no_start t = true ->
+    forall fuel,
+      (forall s, sem e' fuel t s = sem e fuel t s) /\
+      (forall p, attempt e' fuel t p = attempt e fuel t p) /\
+      (forall rtl start prevlen, find e' fuel t rtl start prevlen = find e fuel t rtl start prevlen).
+Proof. exact ce_sem_start_indep. Qed.
+Print Assumptions C02_attempt_does_not_read_start.
+
+(* Program <-> tree: Code.HasOpcode(Start) on the program the writer emits (any configuration: full or
+   quick, any slot map) answers without fault, and says true exactly when the tree contains \G.  In
+   particular the test the constructor makes ("no Start instruction") means "no \G in the tree".
+   No hypothesis. *)
+Theorem C02_has_opcode_start_is_tree_has_start_anchor :
+  forall (cfg : wcfg) (root : node),
+    en_has_opcode (S (length (fst (compile cfg root)))) (fst (compile cfg root)) G_Start =
+    Ok (negb (ce_no_start root)).
+Proof. exact ce_has_opcode_start. Qed.
+Print Assumptions C02_has_opcode_start_is_tree_has_start_anchor.
+
+Theorem C02_no_start_opcode_means_no_start_anchor :
+  forall (cfg : wcfg) (root : node),
+    en_has_opcode (S (length (fst (compile cfg root)))) (fst (compile cfg root)) G_Start = Ok false ->
+    ce_no_start root = true.
+Proof. exact ce_no_opcode_start_no_anchor. Qed.
+Print Assumptions C02_no_start_opcode_means_no_start_anchor.
+
+(* enp_in_range for the reference engine: a match found from s starts in [s, len].  Tree side
+   conditions: left-to-right and well-shaped outside lookarounds (shape_ok false: C04's hypothesis on
+   trees), nothing in the body writes group 0 (C08's).  No termination hypothesis. *)
+Theorem C02_spec_search_in_range :
+  forall (e0 : env) (fuel_of : list Z -> nat) (o : Z) (body : node),
+    shape_ok false (NCapture o 0 (-1) body) = true -> no_group0 body ->
+    enp_in_range st ce_index (ce_search e0 fuel_of (NCapture o 0 (-1) body)).
+Proof. exact ce_in_range. Qed.
+Print Assumptions C02_spec_search_in_range.
+
+(* enp_start_indep for the reference engine of a tree without \G.  Hypothetical: ce_terminates. *)
+Theorem C02_spec_search_start_independent :
+  forall (e0 : env) (fuel_of : list Z -> nat) (o : Z) (body : node),
+    shape_ok false (NCapture o 0 (-1) body) = true -> no_group0 body ->
+    ce_no_start (NCapture o 0 (-1) body) = true ->
+    ce_terminates e0 fuel_of (NCapture o 0 (-1) body) ->
+    enp_start_indep st ce_index (ce_search e0 fuel_of (NCapture o 0 (-1) body)).
+Proof. exact ce_start_indep. Qed.
+Print Assumptions C02_spec_search_start_independent.
+
+(* enp_quick_agrees for the reference engine: whenever syntax.Write produces a quick program it is the
+   full program of [erase keep root] and the search on that tree answers "is there a match" exactly as
+   the search on the original does (also when fuel runs out: both say no).  Side conditions: those of
+   C02_quick_program_sound.  No termination hypothesis. *)
+Theorem C02_spec_search_quick_agrees :
+  forall (e0 : env) (fuel_of : list Z -> nat) cm capsize root prog,
+    bal_ok cm root = true ->
+    (forall g, reads g root = true -> 0 <= map_capnum {| capmap := cm; quick := None |} g) ->
+    write_quick cm capsize root = Some prog ->
+    exists keep,
+      prog = fst (write_full cm (erase keep root)) /\
+      (forall g, map_capnum {| capmap := cm; quick := None |} g = 0 -> keep g = true) /\
+      enp_quick_agrees st (ce_search e0 fuel_of root) (ce_search_quick e0 fuel_of keep root).
+Proof. exact ce_quick_agrees. Qed.
+Print Assumptions C02_spec_search_quick_agrees.
+
+(* ... and for any keep that erases only unobserved groups (C02_erasing_unobserved_captures_preserves_matches) *)
+Theorem C02_spec_search_quick_agrees_for_unobserved :
+  forall (e0 : env) (fuel_of : list Z -> nat) keep root,
+    (forall g, keep g = false -> observed g root = false) ->
+    enp_quick_agrees st (ce_search e0 fuel_of root) (ce_search_quick e0 fuel_of keep root).
+Proof. exact ce_quick_agrees_of_keep. Qed.
+Print Assumptions C02_spec_search_quick_agrees_for_unobserved.
+
+(* HEADLINE FOR TREES.  The program is the one the writer emits for root = (capture 0 of body), left to
+   right; the engine is the reference search on that tree.  enp_in_range and start independence are no
+   longer hypotheses: the first is proved, the second follows from the constructor's own test (no Start
+   opcode in the emitted program = no \G in the tree).  What stays hypothetical:
+     - ce_terminates (residual termination of Spec.attempt);
+     - the published facts at match starts (C04's business), only when a filter was built;
+     - enp_quick_agrees for the bool-only search (discharged by the next theorem);
+     - the tree side conditions shape_ok false root / no_group0 body.
+   Conclusion: exactly that of C02_string_entry_equals_rune_entry with M := st, rtl := false. *)
+Theorem C02_string_entry_equals_rune_entry_for_trees :
+  forall (e0 : env) (fuel_of : list Z -> nat) (search_quick : list Z -> Z -> bool)
+         (c : en_code) (flt : option en_filter) (cfg : wcfg) (o : Z) (body : node),
+    let root := NCapture o 0 (-1) body in
+    let search := ce_search e0 fuel_of root in
+    cd_rtl c = false ->
+    cd_codes c = fst (compile cfg root) ->
+    en_new_filter c = Ok flt ->
+    shape_ok false root = true ->
+    no_group0 body ->
+    ce_terminates e0 fuel_of root ->
+    enp_quick_agrees st search search_quick ->
+    (forall o' f, cd_opts c = Some o' -> flt = Some f ->
+       forall b q, enp_starts st ce_index search (runes_of b) q -> enp_code_fact o' (runes_of b) q) ->
+    forall b : list Z,
+      let r := runes_of b in
+      en_find_string_match st search false flt b = en_find_runes_match st search false r /\
+      (forall k, (k <= length r)%nat ->
+         en_find_string_match_starting_at st search false flt b (Z.of_nat (boundary b k)) =
+         en_find_runes_match_starting_at st search false r (Z.of_nat k)) /\
+      (forall i, i < 0 ->
+         en_find_string_match_starting_at st search false flt b i = en_find_runes_match_starting_at st search false r i) /\
+      (forall i, zlen b < i -> en_find_string_match_starting_at st search false flt b i = Err ERR_START_TOO_LARGE) /\
+      (forall i, 0 <= i <= zlen b -> en_is_boundary b i = false ->
+         en_find_string_match_starting_at st search false flt b i = Err ERR_START_NOT_BOUNDARY) /\
+      en_match_string search_quick false flt b = en_match_runes search_quick false r.
+Proof. exact ce_string_entry_for_trees. Qed.
+Print Assumptions C02_string_entry_equals_rune_entry_for_trees.
+
+(* ... with the bool-only search instantiated too: whenever syntax.Write produces a quick program (side
+   conditions of C02_quick_program_sound) it is the program of [erase keep root], and MatchString /
+   MatchRunes run the reference search on that tree. *)
+Theorem C02_string_entry_equals_rune_entry_for_trees_with_quick_program :
+  forall (e0 : env) (fuel_of : list Z -> nat)
+         (c : en_code) (flt : option en_filter) (cfg : wcfg) (o : Z) (body : node)
+         (cm : option (list (Z * Z))) (capsize : Z) (prog : list Z),
+    let root := NCapture o 0 (-1) body in
+    let search := ce_search e0 fuel_of root in
+    cd_rtl c = false ->
+    cd_codes c = fst (compile cfg root) ->
+    en_new_filter c = Ok flt ->
+    shape_ok false root = true ->
+    no_group0 body ->
+    ce_terminates e0 fuel_of root ->
+    bal_ok cm root = true ->
+    (forall g, reads g root = true -> 0 <= map_capnum {| capmap := cm; quick := None |} g) ->
+    write_quick cm capsize root = Some prog ->
+    (forall o' f, cd_opts c = Some o' -> flt = Some f ->
+       forall b q, enp_starts st ce_index search (runes_of b) q -> enp_code_fact o' (runes_of b) q) ->
+    exists keep,
+      prog = fst (write_full cm (erase keep root)) /\
+      forall b : list Z,
+        let r := runes_of b in
+        let search_quick := ce_search_quick e0 fuel_of keep root in
+        en_find_string_match st search false flt b = en_find_runes_match st search false r /\
+        (forall k, (k <= length r)%nat ->
+           en_find_string_match_starting_at st search false flt b (Z.of_nat (boundary b k)) =
+           en_find_runes_match_starting_at st search false r (Z.of_nat k)) /\
+        (forall i, i < 0 ->
+           en_find_string_match_starting_at st search false flt b i = en_find_runes_match_starting_at st search false r i) /\
+        (forall i, zlen b < i -> en_find_string_match_starting_at st search false flt b i = Err ERR_START_TOO_LARGE) /\
+        (forall i, 0 <= i <= zlen b -> en_is_boundary b i = false ->
+           en_find_string_match_starting_at st search false flt b i = Err ERR_START_NOT_BOUNDARY) /\
+        en_match_string search_quick false flt b = en_match_runes search_quick false r.
+Proof. exact ce_string_entry_for_trees_quick. Qed.
+Print Assumptions C02_string_entry_equals_rune_entry_for_trees_with_quick_program.
+
+(* The \G exclusion is needed at this level too.  \Gabc under the root capture: well shaped, group 0
+   untouched, every attempt terminates with fuel 4 — only ce_no_start fails; the emitted program
+   Lazybranch; Setmark; Start; Multi; Capturemark 0; Stop has the Start opcode; and the reference
+   engine is not start independent: on "xabc" nothing from 0, the match [1,4) from 1. *)
+Example C02_tree_start_anchor_exclusion_needed :
+  shape_ok false ce_x_G = true /\ no_group0 ce_x_G_body /\ ce_terminates ce_x_env ce_x_fuel ce_x_G /\
+  ce_no_start ce_x_G = false /\
+  fst (compile ce_x_cfg ce_x_G) = [23; 9; 31; 19; 12; 0; 32; 0; -1; 40] /\
+  en_has_opcode (S (length (fst (compile ce_x_cfg ce_x_G)))) (fst (compile ce_x_cfg ce_x_G)) G_Start = Ok true /\
+  ce_search ce_x_env ce_x_fuel ce_x_G [120; 97; 98; 99] 0 = None /\
+  ce_search ce_x_env ce_x_fuel ce_x_G [120; 97; 98; 99] 1 = Some {| pos := 4; caps := [(0, [(1, 3)])] |} /\
+  ~ enp_start_indep st ce_index (ce_search ce_x_env ce_x_fuel ce_x_G).
+Proof. exact ce_x_G_start_indep_fails. Qed.
+
+(* Non-vacuity: every hypothesis of C02_string_entry_equals_rune_entry_for_trees holds together for the
+   pattern abc (tree Capture 0 (Multi "abc"), compiled codes, mode LeadingString_LeftToRight, filter
+   prefix "abc", fuel 4), including termination and the published facts at every match start ... *)
+Example C02_tree_entry_hypotheses_met :
+  let search := ce_search ce_x_env ce_x_fuel ce_x_abc in
+  cd_rtl ce_x_code_abc = false /\
+  cd_codes ce_x_code_abc = fst (compile ce_x_cfg ce_x_abc) /\
+  en_new_filter ce_x_code_abc = Ok enx_flt_abc /\
+  shape_ok false ce_x_abc = true /\
+  no_group0 ce_x_abc_body /\
+  ce_terminates ce_x_env ce_x_fuel ce_x_abc /\
+  enp_quick_agrees st search (ce_search_quick ce_x_env ce_x_fuel (fun _ => true) ce_x_abc) /\
+  (forall o' f, cd_opts ce_x_code_abc = Some o' -> enx_flt_abc = Some f ->
+     forall b q, enp_starts st ce_index search (runes_of b) q -> enp_code_fact o' (runes_of b) q).
+Proof. exact ce_x_abc_hypotheses. Qed.
+
+(* ... and on "xéabc" both entry points report the match at rune 2. *)
+Example C02_tree_entry_witness :
+  let b := [120; 195; 169; 97; 98; 99] in
+  let search := ce_search ce_x_env ce_x_fuel ce_x_abc in
+  ce_no_start ce_x_abc = true /\
+  cd_codes ce_x_code_abc = [23; 8; 31; 12; 0; 32; 0; -1; 40] /\
+  en_has_opcode (S (length (cd_codes ce_x_code_abc))) (cd_codes ce_x_code_abc) G_Start = Ok false /\
+  en_find_string_match st search false enx_flt_abc b =
+    Ok (Some {| pos := 5; caps := [(0, [(2, 3)])] |}) /\
+  en_find_runes_match st search false (runes_of b) = Ok (Some {| pos := 5; caps := [(0, [(2, 3)])] |}) /\
+  en_match_string (ce_search_quick ce_x_env ce_x_fuel (fun _ => true) ce_x_abc) false enx_flt_abc b = Ok true.
+Proof. exact ce_x_abc_witness. Qed.
